@@ -252,6 +252,76 @@ def body(ctx: Ctx, p: dict) -> None:
     ctx.case(p, nontrivial=nt, classes=classes)
 
 
+
+# ---------------------------------------------------------------------------------------------------------------
+# coarse-to-fine pipelines: the flags of the final scale still tell the causes found in the caller's own masks
+# ---------------------------------------------------------------------------------------------------------------
+@st.composite
+def multiscale_cases(draw):
+    pair = draw(gen.image_pair(min_rows=20, max_rows=36, min_cols=20, max_cols=40, max_val=30, masks=True, tile_max=8,
+                               conventions="per-image"))
+    ns = draw(st.sampled_from([2, 2, 3])) if min(pair["H"], pair["W"]) >= 32 else 2
+    w = draw(st.sampled_from([1, 3, 3]))
+    steps = [["matching_cost", {"matching_cost_method": draw(st.sampled_from(["sad", "census", "zncc"])) if w > 1 else "sad",
+                               "window_size": w, "subpix": draw(st.sampled_from([1, 1, 2]))}],
+             ["disparity", {"disparity_method": "wta", "invalid_disparity": draw(st.sampled_from([-9999, "NaN"]))}]]
+    extra = [["filter", {"filter_method": "median", "filter_size": 3}],
+             ["refinement", {"refinement_method": draw(st.sampled_from(["vfit", "quadratic"]))}]]
+    steps += [e for e in extra if draw(st.integers(0, 2)) == 0]
+    ms = ["multiscale", {"multiscale_method": "fixed_zoom_pyramid", "num_scales": ns, "scale_factor": 2,
+                         "marge": draw(st.integers(0, 2))}]
+    val = ["validation", {"validation_method": "cross_checking_accurate"}]
+    mode = draw(st.sampled_from(["none", "none", "before", "after"]))
+    steps += {"none": [ms], "before": [val, ms], "after": [ms, val]}[mode]
+    a = draw(st.integers(-6, 2))
+    return {"pair": pair, "pipeline": steps, "disp": [a, min(a + draw(st.integers(1, 6)), 6)], "w": w}
+
+
+def multiscale_body(ctx: Ctx, p: dict) -> None:
+    left, right, ml, mr = gen.materialise_pair(p["pair"])
+    H, W = left.shape
+    w = p["w"]
+    h = w // 2
+    mlc = gen._mask(p["pair"].get("mask_left"), H, W, 0, 1)
+    mrc = gen._mask(p["pair"].get("mask_right"), H, W, 0, 1)
+    steps = p["pipeline"]
+    has_val = any(n == "validation" for n, _ in steps)
+    tag = f"pipeline={steps} disp={p['disp']} shape={(H, W)}"
+    res = drive.run_pipeline(left, right, gen.pipe_dict(steps), tuple(p["disp"]), msk_left=ml, msk_right=mr,
+                             **gen.conv_kwargs(p["pair"]))
+    seen = {"no-data": 0, "masked": 0}
+    for side, out, M in (("left", res.left, mlc), ("right", res.right, mrc)):
+        if side == "right" and not has_val:
+            continue
+        vm = out["validity_mask"].data
+        z = np.zeros((H, W), bool)
+        nod = (M == 1) if M is not None else z
+        inv = ((M != 0) & (M != 1)) if M is not None else z
+        if (vm.astype(np.int64) >= 4096).any():
+            ctx.violation("C04/undocumented-bit", f"{side} final scale {tag}")
+        for r in range(H):
+            for c in range(W):
+                v = int(vm[r, c])
+                if r < h or r >= H - h or c < h or c >= W - h:
+                    if v & 0b11000110:
+                        ctx.violation("C04/border-pixel-not-bit0-only", f"{side} {(r, c)}: {v} (final scale) {tag}")
+                    continue
+                b0 = bool(nod[r - h:r + h + 1, c - h:c + h + 1].any())
+                b6 = bool(inv[r, c])
+                seen["no-data"] += b0
+                seen["masked"] += b6
+                ctx.judged += 2
+                if bool(v & 1) != b0:
+                    ctx.violation("C04/bit0-cause-mismatch", f"{side} {(r, c)}: mask {v}, bit 0 expected {int(b0)} "
+                                                              f"(final scale of a pyramid) {tag}")
+                if bool(v & 64) != b6:
+                    ctx.violation("C04/bit6-cause-mismatch", f"{side} {(r, c)}: mask {v}, bit 6 expected {int(b6)} "
+                                                              f"(final scale of a pyramid) {tag}")
+    ctx.case(p, nontrivial=bool(seen["no-data"] and seen["masked"]),
+             classes=["multiscale"] + (["validation"] if has_val else []) + [k for k, n in seen.items() if n])
+
+
 CHECKS = [
     Check("pipelines", body, strategy=cases, budget={"quick": (16, 50), "thorough": (16, 1200)}),
+    Check("multiscale", multiscale_body, strategy=multiscale_cases, budget={"quick": (8, 8), "thorough": (16, 150)}),
 ]
